@@ -56,8 +56,24 @@ class Result:
         return self
 
 
+PYL_OPS = {"cksum", "isvalid", "inputmode", "protocol", "getbits", "parse"}
+PYL_MAX = 25000
+
+
 def do_corr(res, lines):
-    """run correspondence on `lines`; record diffs; return python answers"""
+    """run correspondence on `lines`; record diffs; return python answers.
+    Operations whose code is translated (tools/translate_code.py) are asked a second time with the `pyl-` prefix: the
+    driver then answers by interpreting the working tree's code under the PyLite semantics, so CPython, the hand model
+    and the interpreted code are compared on the same inputs."""
+    pyl = [("pyl-" + l) for l in lines if l.split(" ", 1)[0] in PYL_OPS and len(l) < 20000]
+    if len(pyl) > PYL_MAX:
+        pyl = random.Random(len(pyl)).sample(pyl, PYL_MAX)
+    if pyl:
+        n2, diffs2, _ = corr.compare(pyl)
+        res.count(n2)
+        res.coverage["pylite_interpreted_ops"] = res.coverage.get("pylite_interpreted_ops", 0) + n2
+        for l, a, b in diffs2:
+            res.diffs.append(dict(op=l, py=a, model=b))
     n, diffs, py = corr.compare(lines)
     res.count(n)
     res.coverage["traces_validated_against_impl"] = res.coverage.get("traces_validated_against_impl", 0) + n
